@@ -27,10 +27,11 @@ import (
 // ---- "the node asked to be killed" ----------------------------------------------
 
 // killWatch counts SIGTERM deliveries to this process (cmn.Kill() sends SIGTERM to the
-// own pid). A barrier makes the count exact at a point of the schedule without sleeping:
-// the Go runtime hands signals to os/signal in ascending signal number per batch and
-// batches in order, so once a SIGWINCH (28) sent after the step under observation has
-// arrived, every SIGTERM (15) raised before it has arrived too.
+// own pid; the check catches it instead of dying). After every step of a node a barrier
+// closes the count without sleeping: the Go runtime hands signals to os/signal in
+// ascending signal number per batch and batches in order, so once a SIGWINCH (28) sent
+// after the step has arrived, every SIGTERM (15) handled before it has arrived too. A
+// process-directed signal may be handled by another thread after the barrier; see collect.
 type killWatch struct {
 	ch chan os.Signal
 }
@@ -43,25 +44,29 @@ func newKillWatch() *killWatch {
 
 func (k *killWatch) stop() { signal.Stop(k.ch) }
 
-// collect returns the number of SIGTERMs delivered since the last call; ok=false if the
-// barrier did not come back (infrastructure trouble).
-func (k *killWatch) collect() (n int, ok bool) {
+// collect returns the number of SIGTERMs delivered since the last call. expect is the
+// number of kill requests the caller has reason to wait for (the acting node sits in
+// RoundStepCommit with the block stored and not applied - the state finalizeCommit
+// leaves behind on the Kill path): a process-directed signal may be handled by another
+// thread later than the barrier, so those are waited for (bounded) instead of being
+// attributed to a later step. ok=false if the barrier did not come back.
+func (k *killWatch) collect(expect int) (n int, ok bool) {
 	syscall.Kill(os.Getpid(), syscall.SIGWINCH)
-	deadline := time.After(5 * time.Second)
-	for {
+	deadline := time.After(20 * time.Second)
+	barrier := false
+	for !barrier || n < expect {
 		select {
 		case s := <-k.ch:
 			if s == syscall.SIGTERM {
 				n++
-				continue
+			} else {
+				barrier = true
 			}
-			// the barrier; a SIGTERM raised on another thread at the very same moment is
-			// picked up by the next collect (every behaviour ends with one)
-			return n, true
 		case <-deadline:
-			return n, false
+			return n, barrier
 		}
 	}
+	return n, true
 }
 
 // ---- the cluster ---------------------------------------------------------------
@@ -94,6 +99,8 @@ type world struct {
 	// messages of the correct proposer of a later round
 	laterProp map[int][]cs.ConsensusMessage
 	kills     map[int]int // SIGTERMs observed during a step of node i
+	restarts  map[int]int
+	reapplied map[int]bool // a restart applied the stored block
 	steps     int
 }
 
@@ -104,7 +111,7 @@ func newWorld(dir string, isTrie bool, kw *killWatch) (w *world, err error) {
 		}
 	}()
 	w = &world{dir: dir, isTrie: isTrie, kw: kw, acct: appx.NewAccount(1), other: appx.NewAccount(2),
-		votes: map[int]map[int]map[byte]*types.Vote{}, laterProp: map[int][]cs.ConsensusMessage{}, kills: map[int]int{}}
+		votes: map[int]map[int]map[byte]*types.Vote{}, laterProp: map[int][]cs.ConsensusMessage{}, kills: map[int]int{}, restarts: map[int]int{}, reapplied: map[int]bool{}}
 	w.envs = make([]*appx.Env, 4)
 	w.cl, err = cluster.New(cluster.Options{N: 4, ChainID: appx.ChainID,
 		MakeApp: func(i int, c *cluster.Cluster) (cs.BlockChainApp, *cluster.MockApp, cs.Mempool) {
@@ -224,6 +231,8 @@ func (w *world) runHonestHeight(h uint64, withRound1 bool) error {
 		for _, i := range w.all() {
 			n := w.cl.Nodes[i]
 			// latest timeout of the height being decided only: the next height is started by the caller
+			// (a stale one is ignored by handleTimeout; Fire forgets the one it fired and
+			// appends what the step scheduled)
 			for k := len(n.Pend) - 1; k >= 0; k-- {
 				if n.Pend[k].Height == h {
 					w.cl.Fire(i, k)
@@ -231,13 +240,6 @@ func (w *world) runHonestHeight(h uint64, withRound1 bool) error {
 					break
 				}
 			}
-			var keep []cs.VerifTimeout
-			for _, t := range n.Pend {
-				if t.Height > h {
-					keep = append(keep, t)
-				}
-			}
-			n.Pend = append(keep, n.CS.VerifScheduled()...)
 		}
 		if !fired {
 			break
@@ -257,9 +259,12 @@ func (w *world) runHonestHeight(h uint64, withRound1 bool) error {
 
 // takeOver starts height H, intercepts the round-0 proposer's own proposal and makes it
 // the Byzantine validator. perm orders the three correct nodes after the round-1 proposer.
-func (w *world) takeOver(H uint64, perm []int) error {
+func (w *world) takeOver(H uint64, perm []int, txs int) error {
 	w.H = H
-	if err := w.addTxs(2); err != nil {
+	if txs <= 0 {
+		txs = 2
+	}
+	if err := w.addTxs(txs); err != nil {
 		return err
 	}
 	w.prune(H)
@@ -402,7 +407,13 @@ func (w *world) popAll(i int) {
 
 // after closes a step of node i: count kill requests raised by it.
 func (w *world) after(i int) error {
-	n, ok := w.kw.collect()
+	expect := 0
+	nd := w.cl.Nodes[i]
+	if rs := nd.CS.GetRoundState(); w.kills[i] == 0 && nd.Failure == nil && rs.Height == w.H && rs.Step == cstypes.RoundStepCommit &&
+		nd.App.Height() >= w.H && nd.CS.VerifStatus().LastBlockHeight < w.H {
+		expect = 1
+	}
+	n, ok := w.kw.collect(expect)
 	if !ok {
 		return fmt.Errorf("signal barrier lost")
 	}
@@ -420,6 +431,11 @@ func (w *world) recvByz(i int) {
 	w.deliver(i, &cs.ProposalMessage{Proposal: w.badProp}, w.byz)
 	for k := 0; k < w.badParts.Total(); k++ {
 		w.deliver(i, &cs.BlockPartMessage{Height: w.H, Round: 0, Part: w.badParts.GetPart(k)}, w.byz)
+	}
+	if rs := w.cl.Nodes[i].CS.GetRoundState(); rs.Height == w.H && rs.Round == 0 && rs.Step == cstypes.RoundStepPropose && w.cl.Nodes[i].Failure == nil {
+		// the block was dropped on receipt (undecodable, incomplete, foreign recover flag): the
+		// node keeps waiting for a proposal until its propose timeout
+		w.fireStep(i, w.H, 0, cstypes.RoundStepPropose)
 	}
 	w.popAll(i)
 }
@@ -528,6 +544,21 @@ func (w *world) nameID(id types.BlockID) string {
 	return "G"
 }
 
+// gIsB: the correct proposer of round 1 built, byte for byte, the block the round-0
+// proposer had built (same second, same mempool, same previous commit) - possible only
+// when B is the untouched control. The model calls what is voted from round 1 on "G".
+func (w *world) gIsB() bool {
+	h := partsHeaderOf(w.laterProp[1])
+	return !h.IsZero() && h.Equals(w.badParts.Header())
+}
+
+func (w *world) rename(name string, round int) string {
+	if name == "B" && round >= 1 && w.gIsB() {
+		return "G"
+	}
+	return name
+}
+
 func (w *world) nameBlock(b *types.Block, ps *types.PartSet) string {
 	if b == nil {
 		return "none"
@@ -547,21 +578,25 @@ func (w *world) observe(i int, maxRound int) nodeObs {
 		k := fmt.Sprint(r)
 		o.PV[k], o.PC[k] = "none", "none"
 		if v := w.votes[i][r][types.VoteTypePrevote]; v != nil {
-			o.PV[k] = w.nameID(v.BlockID)
+			o.PV[k] = w.rename(w.nameID(v.BlockID), r)
 		}
 		if v := w.votes[i][r][types.VoteTypePrecommit]; v != nil {
-			o.PC[k] = w.nameID(v.BlockID)
+			o.PC[k] = w.rename(w.nameID(v.BlockID), r)
 		}
 	}
 	if n.App.Height() >= w.H {
 		if meta := n.App.LoadBlockMeta(w.H); meta != nil {
 			o.Stored = w.nameID(meta.BlockID)
+			if sc := n.App.LoadSeenCommit(w.H); sc != nil {
+				o.Stored = w.rename(o.Stored, sc.Round())
+			}
 		} else {
 			o.Stored = "G"
 		}
 	}
-	o.Applied = st.LastBlockHeight >= w.H
+	o.Applied = st.LastBlockHeight >= w.H || w.reapplied[i]
 	o.Killed = w.kills[i] > 0
+	o.Restarts = w.restarts[i]
 	switch {
 	case n.Failure != nil:
 		o.Step = "failed"
@@ -579,8 +614,8 @@ func (w *world) observe(i int, maxRound int) nodeObs {
 	o.Round = rs.Round
 	o.PB, o.LB = "none", "none"
 	if rs.Height == w.H {
-		o.PB = w.nameBlock(rs.ProposalBlock, rs.ProposalBlockParts)
-		o.LB = w.nameBlock(rs.LockedBlock, rs.LockedBlockParts)
+		o.PB = w.rename(w.nameBlock(rs.ProposalBlock, rs.ProposalBlockParts), rs.Round)
+		o.LB = w.rename(w.nameBlock(rs.LockedBlock, rs.LockedBlockParts), rs.Round)
 	}
 	return o
 }
